@@ -83,12 +83,15 @@ class Monitor(object):
         if self.simulation.instrument.events:
             self.events = pd.concat([self.events,
                                     pd.DataFrame(self.simulation.instrument.events)])
+            self.simulation.instrument.events = []
 
         if self.simulation.scheduler.events:
             self.events = pd.concat([self.events,
                                     pd.DataFrame(self.simulation.scheduler.events)])
+            self.simulation.scheduler.events = []
         if self.simulation.buffer.events:
             self.events = pd.concat([self.events,
                                     pd.DataFrame(self.simulation.buffer.events)])
+            self.simulation.buffer.events = []
 
         self.events = self.events.infer_objects()
